@@ -258,6 +258,11 @@ class Component( ComponentLevel7 ):
     for func, obj_name in provided_func_calls:
       parent._dsl.func_calls[func].add( eval(obj_name) )
 
+    # Re-evaluating the saved names may have created slices of the new signals
+    late_signals = obj._collect_all_single( lambda x: isinstance( x, Signal ) ) - added_signals
+    top._dsl.all_signals       |= late_signals
+    top._dsl.all_named_objects |= late_signals
+
     del NamedObject._elaborate_stack
 
   def _delete_component( top, obj ):
